@@ -330,6 +330,70 @@ func RunCheck[S any](t *testing.T, c Check[S]) {
 	_ = os.Remove(inflight)
 }
 
+// RunFuzz drives the same check part with Go's coverage-guided fuzzer: the
+// fuzzer's byte string is the bit stream rapid's generators draw from
+// (rapid.MakeFuzz), so mutation and coverage feedback act on the structured
+// scenario, and the oracle is the one of the rapid-driven part. Every worker
+// process keeps its own statistics file up to date (workers are not shut down
+// in an orderly way); a fresh violation is written as a scenario file that
+// `bin/check --replay` runs through the rapid-driven test of the same part.
+func RunFuzz[S any](f *testing.F, c Check[S], replayTest string) {
+	c.Part += "-gofuzz"
+	c.Rule = "go test -fuzz (coverage-guided) over the byte stream behind the generators of this rule, via rapid.MakeFuzz: " + c.Rule
+	col := newCollector(c.Property, c.Part, c.Rule, c.Assumptions)
+	known := Known()
+	violPath := filepath.Join(outDir(), fmt.Sprintf("violation-%s-%s-%d.json", c.Property, c.Part, os.Getpid()))
+	basePart := strings.TrimSuffix(c.Part, "-gofuzz")
+	inflight := filepath.Join(outDir(), fmt.Sprintf("inflight-%s-%s-%d.json", c.Property, c.Part, os.Getpid()))
+	// seed corpus: the empty stream (rapid's minimal scenario) and a few fixed pseudo-random streams of growing length
+	f.Add([]byte{})
+	x := uint64(0x9e3779b97f4a7c15)
+	for _, n := range []int{64, 256, 1024, 4096} {
+		b := make([]byte, n)
+		for i := range b {
+			x = Mix64(x + uint64(i))
+			b[i] = byte(x)
+		}
+		f.Add(b)
+	}
+	n := 0
+	f.Fuzz(func(t *testing.T, data []byte) {
+		rapid.MakeFuzz(func(rt *rapid.T) {
+			s := c.Gen(rt)
+			if c.Excluded != nil {
+				if lbl := c.Excluded(s, known); lbl != "" {
+					col.mu.Lock()
+					col.st.Excluded[lbl]++
+					col.mu.Unlock()
+					rt.Skip("excluded by known finding: " + lbl)
+				}
+			}
+			writeJSON(inflight, violationFile{Property: c.Property, Part: basePart, Test: replayTest, Scenario: s})
+			res := c.Run(t, s)
+			col.record(s, res)
+			var fresh []Violation
+			for _, v := range res.Violations {
+				if known[v.Signature] {
+					col.mu.Lock()
+					col.st.KnownHits[v.Signature]++
+					col.mu.Unlock()
+					continue
+				}
+				fresh = append(fresh, v)
+			}
+			if len(fresh) > 0 {
+				writeJSON(violPath, violationFile{Property: c.Property, Part: basePart, Test: replayTest, Scenario: s, Violation: fresh})
+				col.flush()
+				rt.Fatalf("VERIF-VIOLATION %s: %s", fresh[0].Signature, fresh[0].Detail)
+			}
+		})(t, data)
+		n++
+		if n%200 == 0 || n < 3 {
+			col.flush()
+		}
+	})
+}
+
 // RunEnum drives a check part over an explicit enumeration of scenarios.
 func RunEnum[S any](t *testing.T, c Check[S], enum func(yield func(S) bool)) {
 	col := newCollector(c.Property, c.Part, c.Rule, c.Assumptions)
